@@ -11,7 +11,7 @@ from vlib.workers import ALL, WorkerDied, WorkerSet
 
 PROPERTY = "C10"
 LEVEL = "exploration"
-RULE = ("Item trees over synthetic stack-item types (unwrap result: None / single item / tuple / list / collections.deque / @yields_frames "
+RULE = ("(Insertion-invariance, metamorphic, over arbitrary nestings with None / PRUNE / [] hooks: a hook-less frame answering (X, next_inner) - X an item unwrapping to nothing, a new frame as frame object or through an item, two frames; the new frame answering None or PRUNE - yields the old result with X's frames added right after it and nothing else changed.) Item trees over synthetic stack-item types (unwrap result: None / single item / tuple / list / collections.deque / @yields_frames "
         "iterator / empty) whose frames come from a pool of 64 real frames with distinct code objects, each with a "
         "table-driven elaborate_frame result (None / PRUNE / [] / replacement by item(s) / raw frame + item / insertion "
         "(item, next_inner) as list / tuple / deque / with an item that unwraps to nothing / bare next_inner), generated recursively by Hypothesis so that replacements and insertions "
@@ -525,6 +525,58 @@ def equiv_check(shape, pick, form, ws, interps, out):
     return viols
 
 
+INS_FORMS = ["ins_empty", "ins_raw", "ins_wrapped", "ins_raw_prune", "ins_wrapped_prune", "ins_two"]
+
+
+def insert_equiv_check(shape, pick, form, ws, interps, out):
+    """metamorphic: a hook-less frame F that answers (X, next_inner) only ADDS X's frames right after F - what the frames
+    after them go on to prune or replace is what it was without the insertion, and a prune issued by the inserted frame
+    (which has no callees) removes nothing, however the inserted frame is spelled (frame object / item unwrapping to it).
+    Arbitrary nestings, also those whose absolute outcome the documentation leaves open."""
+    case = make_case("order", shape)
+    plain = [k for k, e in sorted(case["elab"].items(), key=lambda kv: int(kv[0])) if e == ["none"]]
+    nf = len(case["elab"])
+    if not plain or nf + 2 >= KMAX:
+        return []
+    k = plain[pick % len(plain)]
+    g, g2 = nf, nf + 1
+    nodes = {"ins_empty": [{"name": 9001, "u": "empty", "ch": []}],
+             "ins_raw": [{"f": g}], "ins_raw_prune": [{"f": g}],
+             "ins_wrapped": [{"name": 9001, "u": "tuple", "ch": [{"f": g}]}],
+             "ins_wrapped_prune": [{"name": 9001, "u": "list", "ch": [{"f": g}]}],
+             "ins_two": [{"f": g}, {"name": 9001, "u": "tuple", "ch": [{"f": g2}]}]}[form]
+    added = {"ins_empty": [], "ins_two": [g, g2]}.get(form, [g])
+    elab = dict(case["elab"], **{k: ["insert", nodes]})
+    for a in added:
+        elab[str(a)] = ["prune"] if form.endswith("_prune") else ["none"]
+    variant = {"space": "insert_equiv", "root": case["root"], "elab": elab}
+    viols = []
+    for interp in interps:
+        try:
+            a = ws[interp].request({"op": "hooks.c10", "root": case["root"], "elab": case["elab"]})
+            b = ws[interp].request({"op": "hooks.c10", "root": variant["root"], "elab": variant["elab"]})
+        except WorkerDied as ex:
+            viols.append({"desc": "interpreter %s died (exit %r)" % (interp, ex.returncode), "interp": interp})
+            continue
+        out.per_interp[interp] += 2
+        if a.get("raised") or a.get("error") or a.get("frames") is None:
+            continue
+        exp = list(a["frames"])
+        if int(k) in exp:
+            i = exp.index(int(k))
+            exp[i + 1:i + 1] = added
+        kb = (b.get("frames"), b.get("leaf"), b.get("error"), b.get("raised"))
+        if kb != (exp, a.get("leaf"), None, None):
+            viols.append({"desc": "frame %s answering (X, next_inner) [%s] did more than insert X's frames on %s: without it "
+                                  "frames=%r leaf=%r; with it frames=%r leaf=%r error=%r; expected frames=%r" % (
+                                      k, form, interp, a["frames"], a.get("leaf"), kb[0], kb[1], kb[2] or kb[3], exp),
+                          "interp": interp})
+    hooks = set(e[0] for e in case["elab"].values())
+    out.note_case({"insert_equiv": {"shape": shape, "pick": pick, "form": form}}, bool(hooks & {"prune", "empty"}),
+                  classes=["space.insert_equiv", "insert_equiv." + form], n_eval=2 * len(interps))
+    return viols
+
+
 def shard(arg):
     out = Outcome()
     interps = arg["interps"]
@@ -537,6 +589,15 @@ def shard(arg):
                 t = fail["case"]
                 out.violation(v["desc"], {"equiv": {"shape": t[0], "pick": t[1], "form": t[2]}}, v["interp"],
                               flaky=fail["flaky"], origin="equiv")
+        if not out.violations and arg.get("n_order", 0) > 0:
+            strat = st.tuples(equiv_shapes().map(lambda t: t[0]), st.integers(0, 50), st.sampled_from(INS_FORMS))
+            fail = hyp_search(strat, lambda t: insert_equiv_check(t[0], t[1], t[2], ws, interps, out),
+                              seed=arg["seed"] + 5, max_examples=arg["n_order"], shrink=arg["shrink"])
+            if fail:
+                v = fail["violations"][0]
+                t = fail["case"]
+                out.violation(v["desc"], {"insert_equiv": {"shape": t[0], "pick": t[1], "form": t[2]}}, v["interp"],
+                              flaky=fail["flaky"], origin="insert_equiv")
         for g in arg.get("guards", []):
             v = check_guard(ws, interps, g, out)
             out.note_case(g, g["guard"] != "chain" or g.get("n", 0) >= 2, classes=["guard." + g["guard"]], n_eval=len(interps))
@@ -578,6 +639,9 @@ def replay(ctx, data):
         elif "equiv" in case:
             e = case["equiv"]
             v = equiv_check(e["shape"], e["pick"], e["form"], ws, interps, out)
+        elif "insert_equiv" in case:
+            e = case["insert_equiv"]
+            v = insert_equiv_check(e["shape"], e["pick"], e["form"], ws, interps, out)
         else:
             v = compare(case, ws, interps, out)
         for x in v:
